@@ -1,5 +1,6 @@
 import SpoxModel.Lemmas.Renames
 import SpoxModel.Lemmas.Front
+import SpoxModel.Lemmas.Reach
 import SpoxModel.Generated.RenamesIR
 /-!
 # C03 — the model's inputs and outputs are exactly what was requested
@@ -236,5 +237,18 @@ theorem valid_request_builds (P : List Obj) (π : List Nat → List Nat) (hπ : 
     simp
   rw [h3, h5]
   exact ⟨_, rfl⟩
+
+/-- `discover_all_arguments_spec`: what `dependsOn` means. For any program (every reference points
+    to an older object — true of every Python program) the arguments that `discover` finds free
+    (`all_arguments - claimed_arguments`) are exactly the Argument Vars some output reaches through
+    input edges and through results of subgraph bodies, **to any depth**, that are not formal
+    arguments of a subgraph reached on the way. -/
+theorem discover_all_arguments_spec (P : List Obj) (hwf : WF P) (outs : List Entry)
+    (houts : ∀ e ∈ outs, e.obj < P.length) (a : Nat) :
+    dependsOn P outs a = true ↔
+      (∃ e ∈ outs, Reach P e.obj a) ∧ ArgObj P a ∧ ¬ ∃ e ∈ outs, Bound P e.obj a := by
+  unfold dependsOn
+  rw [List.contains_iff_mem]
+  exact freeArgs_spec P hwf outs houts a
 
 end C03
